@@ -121,6 +121,30 @@ pub fn search(seed: u64, n: u64) {
         let class = format!("few_section_shape{}", near_contact_suffix(&[&a, &b]));
         check_pair(&mut stats, &mut rng_few, &a, &b, &class, 150, 150);
     }
+    // a classification ray crossing an edge of the other operand at a SHALLOW but transversal angle (own stream): A is a rectangle, B a polygon
+    // around it with one long edge that runs almost along the normal through the middle of one of A's edges (angle 1.8e-4 .. 6e-4 rad: the
+    // ray-caster's tangent filter treats |cos| within 1e-8 of 1, i.e. angles below 1.41e-4 rad, as tangent), 9 units or more away from A
+    let mut rng_sh = Rng(seed ^ 0x5A77C01);
+    for k in 0..(4 + n / 25) {
+        let (w, h) = (rng_sh.r(6.0, 14.0), rng_sh.r(6.0, 14.0));
+        let theta = rng_sh.r(1.8e-4, 6e-4);
+        let d = 30.0 * theta;
+        let mx = w * 0.5;
+        let mut ra = vec![Coord2(0.0, 0.0), Coord2(w, 0.0), Coord2(w, h), Coord2(0.0, h)];
+        let start = rng_sh.i(4) as usize;
+        ra.rotate_left(start);
+        if rng_sh.b() { ra.reverse(); }
+        let rb = vec![Coord2(-10.0, -10.0), Coord2(w + 30.0, -10.0), Coord2(w + 30.0, h + 70.0), Coord2(mx + d, h + 70.0), Coord2(mx - d, h + 10.0), Coord2(-10.0, h + 10.3)];
+        let phi = match k % 3 { 0 => 0.0, 1 => std::f64::consts::FRAC_PI_2, _ => rng_sh.r(0.0, TAU) };
+        let off = Coord2(rng_sh.r(30.0, 40.0), rng_sh.r(20.0, 30.0));
+        let tr = |p: &Coord2| Coord2(p.0 * phi.cos() - p.1 * phi.sin(), p.0 * phi.sin() + p.1 * phi.cos()) + off;
+        let a = vec![polygon(&ra.iter().map(tr).collect::<Vec<_>>())];
+        let b = vec![polygon(&rb.iter().map(tr).collect::<Vec<_>>())];
+        let (a, b) = if k % 2 == 0 { (a, b) } else { (b, a) };
+        stats.count("pair.shallow_ray_crossing");
+        stats.case(&format!("shallow_ray_crossing theta={} A={:?} B={:?}", theta, a, b), true);
+        check_pair(&mut stats, &mut rng_sh, &a, &b, "shallow_ray_crossing", 150, 150);
+    }
     for _ in 0..n {
         let pair = gen_pair(&mut rng);
         count_pair(&mut stats, &pair);
